@@ -434,3 +434,25 @@ PROPS["C17"] = dict(
     level_note="Single fault per run; the scenario ends with the faulted operation (objects are then freed). Leaks on error paths are not judged (C17 does not state them).",
     design_ref="DESIGN.md section 7, C17",
 )
+
+
+PROPS["C18"] = dict(
+    level="exploration", variant="tsan", exhaustive=False, call_timeout=300,
+    stages=lambda tier, seed: [mc("threads", "MC_C18", "MC_C18_%s.cfg" % tier, target_ops=1,
+                                  dopts=dict(env={"TSAN_OPTIONS": "halt_on_error=1:exitcode=66:report_signal_unsafe=0:second_deadlock_stack=1"}))],
+    rule="On the specification (MC_C18): all interleavings of three threads, each taking generate / verify own token / "
+         "verify damaged token on its own builder and checker over one shared keyring; every result equals the result "
+         "of the same call made alone; the keyring, provider and clock are never written. Against the implementation: "
+         "12 (GnuTLS) / 13 (OpenSSL) threads at once - HS256, HS512, RS256, PS256, ES256, ES384, ES512, EdDSA "
+         "(Ed25519, Ed448), ES256K, three algorithms twice - each with its own builder and checker, sharing one "
+         "keyring of 12 keys, 150 (quick) / 2000 (thorough) iterations of claim_set + generate + verify + verify "
+         "damaged, random start skew, 3 (quick) / 25 (thorough) repetitions per provider, libjwt and driver built with "
+         "ThreadSanitizer (halt on first report); the same calls are first made one after another and both result "
+         "lists (verdicts, and token digests for deterministic algorithms) are compared in TLC. distinct = distinct "
+         "(provider, repetition) runs; evaluations = Thread events judged.",
+    assumptions=ASSUME_COMMON + ["data races are detected by ThreadSanitizer on the schedules that actually occurred; OpenSSL, GnuTLS and jansson are not instrumented"],
+    level_text="Exploration: schedules of the real code are sampled under a race detector, not enumerated; the model-"
+               "checked part is the design (no shared mutable state between separate builders/checkers).",
+    level_note="A TSan report anywhere in the process halts the run and is reported as a violation; the unchanged tree produces none.",
+    design_ref="DESIGN.md section 7, C18",
+)
